@@ -1,0 +1,44 @@
+//go:build verif
+
+// Contracts for govc (comment-only file; see /verif/DESIGN.md section 3).
+package pedersen
+
+//@ pred pedok(p *Parameters) := p != nil && p.n != nil && p.n.Modulus != nil && p.s != nil && p.t != nil
+//@ pred pedvok(p Parameters) := p.n != nil && p.n.Modulus != nil && p.s != nil && p.t != nil
+
+//@ func New
+//@   nopanic[C05]
+//@   modifies nothing
+//@   allocates
+//@   ensures result != nil && result.n == n && result.s == s && result.t == t
+
+//@ func ValidateParameters
+//@   nopanic[C05]
+//@   modifies nothing
+//@   allocates
+//@   ensures result == nil ==> n != nil && s != nil && t != nil
+
+//@ func (Parameters).Verify
+//@   nopanic[C05]
+//@   modifies nothing
+//@   allocates
+//@   requires pedvok(p)
+
+//@ func (Parameters).Commit
+//@   nopanic[C05]
+//@   modifies nothing
+//@   allocates
+//@   requires pedvok(p) && x != nil && y != nil
+//@   ensures result != nil
+
+//@ func (*Parameters).WriteTo
+//@   nopanic[C05]
+//@   modifies nothing
+//@   allocates
+//@   requires w != nil && (p != nil ==> pedok(p))
+
+//@ func (Parameters).N
+//@   nopanic[C05]
+//@   requires p.n != nil
+//@   modifies nothing
+//@   ensures result == p.n.Modulus
